@@ -54,7 +54,7 @@ pub fn main(tier: Tier, seed: u64) -> i32 {
     };
     let mut jobs = vec![];
     let mut bases: Vec<(usize, Vec<Vec<polytune_server_core::Policy>>, Vec<Ev>, bool)> = vec![];
-    let xbudget = Budget::new(if tier.is_thorough() { 600.0 } else { 15.0 });
+    let xbudget = Budget::new(if tier.is_thorough() { 1800.0 } else { 15.0 });
     let mut coord_states = 0u64;
     let mut coord_capped = false;
     for (ci, (n, leader, consts, outs)) in cfgs.iter().enumerate() {
@@ -114,7 +114,7 @@ pub fn main(tier: Tier, seed: u64) -> i32 {
         let first_n3 = cfgs.iter().position(|c| c.0 == 3) == Some(ci);
         if *n == 2 || (tier.is_thorough() && first_n3) {
             let space = SrvSpace { n: *n, concurrency: 1, policies: pols.clone(), seed: crate::exec::mix(seed, 1400 + ci as u64), msg_policy: MsgPolicy::Eager };
-            let ex = explore(&space, vec![], &coordination_only, &xbudget, if tier.is_thorough() { 20_000 } else { 3_000 }, true);
+            let ex = explore(&space, vec![], &coordination_only, &xbudget, if tier.is_thorough() { 100_000 } else { 3_000 }, true);
             coord_capped |= ex.capped;
             for m in ex.machinery.iter().take(2) {
                 rep.machinery(m.clone());
@@ -127,7 +127,7 @@ pub fn main(tier: Tier, seed: u64) -> i32 {
                     let cmds = if *n == 2 {
                         menu(*n, party, false)
                     } else {
-                        vec![Stray::ScheduleSame, Stray::Run, Stray::Consts { from: 0, nonempty: true }, Stray::Msg { from: 0, empty: false }, Stray::Msg { from: *n as u64, empty: false }, Stray::ValidateDup { wrong_hash: false }]
+                        vec![Stray::ScheduleSame, Stray::Run, Stray::Msg { from: *n as u64, empty: false }, Stray::ValidateDup { wrong_hash: false }]
                     };
                     for cmd in cmds {
                         if matches!(cmd, Stray::ScheduleSame | Stray::ScheduleOtherParty(_)) && !own_sched {
